@@ -14,8 +14,12 @@ SPEC = {
     'bounded': [
         ('both-backends-vs-exhaustive-scan', map_suites.case_C11, 900, 20000,
          "integer-labelled graphs of 3-6 nodes (random/grid/chain/cycle/star, optional long edge with both ends far away) at unit scale, "
-         "~1e7 ('projected metres') and in degrees (lat-lon metric, 5 anchors incl. southern hemisphere); 3 queries per case: location on/near the "
-         "map (optionally with a time component), radius in {0,.3,1,2.5,50}*unit, max_elmt in {None,1,3}; non-trivial = some node or edge lies within the radius",
+         "~1e7 ('projected metres') and in degrees (lat-lon metric, 7 anchors incl. southern hemisphere and two that straddle the antimeridian); large-radius "
+         "lat-lon queries (2-100 km, |lat| <= 69.65) with nodes 10 cm inside the rim at the extreme-longitude and cardinal points and chord edges through the disc "
+         "with both ends outside; SQLite filled in bulk, edge by edge, deferred, import-style (indexes rebuilt at the end) or by two bulk loads; a third of the "
+         "maps are queried, extended by add_node/add_edge and queried again with the same arguments; 3 queries per case: location on/near the "
+         "map (optionally with a time component), radius in {0,.3,1,2.5,50}*unit, max_elmt in {None,1,3}; lat-lon edge answers also against an independent "
+         "3-D reference; non-trivial = some node or edge lies within the radius",
          "graphs <= 6 nodes")],
     'extra_builders': {
         'inmem_nodes': lambda prog, tier: [M.vc_inmem_closeto(prog, 'nodes', me, tr) for me in (True, False) for tr in (False, True)],
